@@ -569,7 +569,9 @@ type vWSeq struct {
 	P string `valid:"phone,r9"`
 }
 
-func H_C02_same_type_three_calls() {
+func H_C02_same_type_three_calls() { vSameTypeThreeCalls("C02") }
+
+func vSameTypeThreeCalls(prop string) {
 	known := vGlobalRules()
 	vUNoFail = true
 	for i := 0; i < 3; i++ {
@@ -593,7 +595,7 @@ func H_C02_same_type_three_calls() {
 			r.localTag = map[string]string{"phone": "L-phone", "r9": "L-r9"}
 		}
 		r.top(o)
-		vCheckAgainstRef("C02 same type, call "+vNum(i), err, r)
+		vCheckAgainstRef(prop+" same type, call "+vNum(i), err, r)
 	}
 	vReach("end")
 }
